@@ -422,6 +422,9 @@ def merge_runs(data: ArrayLike, digits: Optional[Integer] = None):
         epsilon = 10 ** (-digits)
 
     data = np.asanyarray(data)
+    if len(data) == 0:
+        # nothing to merge
+        return data
     mask = np.zeros(len(data), dtype=bool)
     mask[0] = True
     mask[1:] = np.abs(data[1:] - data[:-1]) > epsilon
